@@ -1,4 +1,5 @@
 import RedactVerif.Props.C01
+import RedactVerif.Props.FactsReset
 /-
 C13 — buffer accessors are pure; Reset and Take return to a pristine buffer.
 
